@@ -168,6 +168,7 @@ pub fn build_by_item_impl(attr: TokenStream, item_impl: &ItemImpl) -> Result<Tok
                     let l_expr = change_owned(quote!(self), &this, impl_l_ref, call_l_ref);
                     let r_expr = change_owned(quote!(__rhs), &rhs, impl_r_ref, call_r_ref);
                     quote! {
+                        #[allow(deprecated, non_camel_case_types, non_snake_case, non_upper_case_globals)]
                         #[automatically_derived]
                         impl #impl_g #binary_trait<#impl_rhs> for #impl_this #where_g {
                             type Output = #output;
@@ -183,6 +184,7 @@ pub fn build_by_item_impl(attr: TokenStream, item_impl: &ItemImpl) -> Result<Tok
                 let l = ref_type_with(&this, call_l_ref);
                 let l_expr = change_owned(quote!(self), &this, true, call_l_ref);
                 quote! {
+                    #[allow(deprecated, non_camel_case_types, non_snake_case, non_upper_case_globals)]
                     #[automatically_derived]
                     impl #impl_g #assign_trait<#rhs> for #this #where_g {
                         fn #assign_func(&mut self, __rhs: #rhs) {
@@ -221,6 +223,7 @@ pub fn build_by_item_impl(attr: TokenStream, item_impl: &ItemImpl) -> Result<Tok
                 let this = this_orig;
                 let rhs = &rhs_orig;
                 ts.extend(quote! {
+                    #[allow(deprecated, non_camel_case_types, non_snake_case, non_upper_case_globals)]
                     #[automatically_derived]
                     impl #impl_g #binary_trait<#rhs> for #this #where_g {
                         type Output = #this;
